@@ -91,7 +91,7 @@ def _nonfinite(obs):
 def correspondence(ctx):
     res = CorrResult()
     corpus = [c["case"] for c in fc.load_corpus(ID)]
-    polys = [c for c in corpus if c["kind"] == "poly"] + _poly_stream(ctx, ctx.n(75, 1000))
+    polys = [c for c in corpus if c["kind"] == "poly"] + _poly_stream(ctx, ctx.n(95, 1000))
     curves = [c for c in corpus if c["kind"] == "curve"] + _curve_stream(ctx, ctx.n(40, 500))
     pterms, cterms, pidx, cidx = [], [], [], []
     for c in polys:
